@@ -17,7 +17,7 @@ import warnings
 warnings.filterwarnings('ignore')
 logging.disable(logging.CRITICAL)
 
-from c14_fake import make_raw, make_results, tiny_logit, tiny_panel, snapshot, exc_info, f2h  # noqa: E402
+from c14_fake import make_raw, make_results, tiny_logit, tiny_panel, snapshot, exc_info, f2h, time_limit  # noqa: E402
 
 T0 = 10 ** 18  # 2001-09-09, in ns
 
@@ -127,7 +127,8 @@ def run_case(case):
     for op in case['ops']:
         step = {'op': op, 'ret': None, 'exc': None}
         try:
-            step['ret'] = do(op)
+            with time_limit(60):
+                step['ret'] = do(op)
         except Exception as e:  # noqa
             step['exc'] = exc_info(e)
         step['snap'] = snapshot()
